@@ -98,7 +98,9 @@ def parse_kani_output(text):
 
 def run_kani(crate_dir, harnesses, jobs=16, timeout=3600, playback=False, extra=None):
     """Runs the named harnesses; with --harness filters only (never the whole crate)."""
-    cmd = ['cargo', 'kani', '--output-format', 'terse', '-j', str(jobs)]
+    cmd = ['cargo', 'kani', '--output-format', 'terse']
+    if jobs and jobs > 1:
+        cmd += ['-j', str(jobs)]
     if playback:
         cmd += ['-Z', 'concrete-playback', '--concrete-playback=print']
     if extra:
